@@ -13,11 +13,11 @@ func init() {
 		// remaining := b.last - b.cur
 		{Kind: "block", Name: "ReadN_remaining", Func: rn, Anchor: "remaining", Solo: true},
 		// if n > remaining { fill }
-		{Kind: "cond", Name: "ReadN_needFill", Func: rn, Anchor: "n > remaining"},
+		{Kind: "cond", Name: "ReadN_needFill", Func: rn, Anchor: "remaining", Occur: 1}, // 1st condition mentioning remaining
 		// cur := reservedbuf
 		{Kind: "block", Name: "ReadN_curInit", Func: rn, Anchor: "cur", Occur: 1, Solo: true},
 		// if remaining != 0 { move the unread tail }
-		{Kind: "cond", Name: "ReadN_hasTail", Func: rn, Anchor: "remaining != 0"},
+		{Kind: "cond", Name: "ReadN_hasTail", Func: rn, Anchor: "remaining", Occur: 2},  // 2nd condition mentioning remaining
 		// cur = reservedbuf - remaining
 		{Kind: "block", Name: "ReadN_curTail", Func: rn, Anchor: "cur", Occur: 2, Solo: true},
 		// copy(b.buf[cur:], b.buf[b.last-remaining:])
